@@ -36,6 +36,56 @@ def judge(edition_idx, fn, memo, unmemo):
     return None
 
 
+# ---- hand-written edit histories (package layouts the generator does not produce) -----------------------------------------
+_HDR = "from twosigma.memento import memento_function\nimport vrec\n"
+
+
+def _mfn(name, body, deco='cluster="vp"'):
+    return '@memento_function(%s)\ndef %s(x):\n    vrec.REC.enter(%r, x)\n    return %s\n' % (deco, name, name, body)
+
+
+def raw_histories():
+    out = []
+    # a memento function defined in the package's __init__.py; the plain helper it uses lives in a sub-module and is edited
+    init = _HDR + "from . import aux\n\n\n" + _mfn("m1", "aux.with_fee(x) * 2")
+    out.append(dict(name="memento-function-in-package-init", ms=["m1"], editions=[
+        {"__init__.py": init, "aux.py": "def with_fee(a):\n    return a + %d\n" % k, "mod.py": "from . import m1\n"} for k in (5, 7, 5, 9)]))
+    # a hidden call (through a plain helper) to an explicitly versioned callee whose body and version string are edited
+    def hid(ver, val):
+        return {"aux.py": _HDR, "mod.py": _HDR + "\n\n" + _mfn("m1", str(val), 'cluster="vp", version="%s"' % ver) +
+                "\n\ndef price(x):\n    return globals()['m' + '1'](x)\n\n\n" + _mfn("m2", "price(x) * x")}
+    out.append(dict(name="hidden-call-to-explicitly-versioned-callee", ms=["m2"], editions=[hid("1", 4), hid("2", 6), hid("3", 4)]))
+    # variables of the same name in two modules of one named cluster, edited in turn
+    def two(ra, rm):
+        # (both readers are memento functions of the named cluster: their rule parents carry the cluster name)
+        return {"aux.py": _HDR + "RATE = %d\n\n\n" % ra + _mfn("a1", "x * RATE") + "\n\ndef fee(a):\n    return a * RATE\n",
+                "mod.py": _HDR + "from . import aux\nRATE = %d\n\n\n" % rm + _mfn("m1", "[aux.a1(x), aux.fee(x), x * RATE]") + "\n\n" + _mfn("m2", "m1(x)")}
+    out.append(dict(name="same-variable-name-in-two-modules", ms=["m1", "m2"], editions=[two(2, 3), two(2, 5), two(4, 5), two(4, 3), two(2, 3), two(6, 3)]))
+    return out
+
+
+def raw_cross_process(hist, root):
+    import c03
+    store = os.path.join(root, "store")
+    fails = []
+    for i, files in enumerate(hist["editions"]):
+        sub = os.path.join(root, "ed%d" % i)
+        os.makedirs(sub)
+        c03.write_raw(dict(files=files), sub, "vpk")
+        acts = [["import"]]
+        for n in hist["ms"]:
+            acts += [["call", n, 2], ["unmemo", n, 2]]
+        out = vrun.child(dict(root=sub, pkg="vpk", store=store, actions=acts), hashseed=i % 3)
+        if out[0] != "ok":
+            fails.append(dict(clause="program-imports", edition=i, error=out[0]))
+            break
+        for j, n in enumerate(hist["ms"]):
+            f = judge(i, n, out[1 + 2 * j], out[2 + 2 * j])
+            if f:
+                fails.append(f)
+    return fails
+
+
 def cross_process(editions, root, xs=(2,)):
     store = os.path.join(root, "store")
     fails, log = [], []
@@ -290,7 +340,10 @@ def main(chk, replay=None):
             if replay.get("delivery") == "in-process":
                 fails = in_process(replay["editions"], root)
             else:
-                fails, _ = cross_process(replay["editions"], root)
+                if replay.get("raw_history"):
+                    fails = raw_cross_process([h for h in raw_histories() if h["name"] == replay["raw_history"]][0], root)
+                else:
+                    fails, _ = cross_process(replay["editions"], root)
             print(json.dumps(dict(still_fails=bool(fails), observed=fails[:2]), default=str))
             return 1 if fails else 0
         finally:
@@ -335,6 +388,20 @@ def main(chk, replay=None):
             shutil.rmtree(root, ignore_errors=True)
         return eds, [[["corpus", "-"]]], fx, fi, model_partition(eds, vlog)
 
+    for hist in raw_histories():
+        root = tempfile.mkdtemp(prefix="c01r_", dir=chk.tmpdir())
+        try:
+            rf = raw_cross_process(hist, root)
+        finally:
+            shutil.rmtree(root, ignore_errors=True)
+        chk.case(["raw-history", hist["name"]], nontrivial=True, sample=dict(kind="hand-written edit history", name=hist["name"], editions=len(hist["editions"])))
+        chk.count("raw-history-editions", len(hist["editions"]))
+        if rf and reported < 4:
+            reported += 1
+            f = rf[0]
+            chk.violation({"what": "stale result (cross-process, hand-written history %s): %s returns %s but the current program computes %s" % (
+                hist["name"], f.get("fn"), json.dumps(f.get("memoized")), json.dumps(f.get("unmemoized"))),
+                "class": {"clause": f["clause"], "delivery": "cross-process", "raw": hist["name"]}, "raw_history": hist["name"], "observed": rf[:2]})
     seeds = [rng.randrange(1 << 30) for _ in range(nprog)]
     with concurrent.futures.ThreadPoolExecutor(max_workers=8) as ex:
         results = list(ex.map(work_corpus, corpus())) + list(ex.map(work, seeds))
